@@ -12,6 +12,7 @@ import tevalfam
 import interpfam
 import provfam
 import typefam
+import boundsfam
 from vlib import InfraError
 
 CHECKS = {}
@@ -30,6 +31,8 @@ def replay(ctx, path):
     fam = obj.get("replay_family", "eval")
     if fam == "eval":
         return evalfam.replay(ctx, obj)
+    if fam == "bounds":
+        return boundsfam.replay(ctx, obj)
     if fam == "types":
         return typefam.replay(ctx, obj)
     if fam == "prov":
@@ -124,3 +127,8 @@ def c15(ctx):
 @register("C12")
 def c12(ctx):
     return typefam.check_c12(ctx)
+
+
+@register("C11")
+def c11(ctx):
+    return boundsfam.check_c11(ctx)
